@@ -423,8 +423,8 @@ M("C09", "origin-sni-self-host-through-tunnel", "connection.py",
   "                if self._tunnel_scheme == \"https\":\n                    # _connect_tls_proxy will verify and assign proxy_is_verified\n                    self.sock = sock = self._connect_tls_proxy(self.host, sock)\n                    tls_in_tls = True",
   "                if self._tunnel_scheme == \"https\":\n                    # _connect_tls_proxy will verify and assign proxy_is_verified\n                    self.sock = sock = self._connect_tls_proxy(self.host, sock)", rule="C09-R5")
 M("C09", "tunnel-before-proxy-tls", "connection.py",
-  "                # If we're tunneling it means we're connected to our proxy.\n                self._has_connected_to_proxy = True\n\n                self._tunnel()\n                # Override the host",
-  "                # If we're tunneling it means we're connected to our proxy.\n                self._has_connected_to_proxy = True\n\n                # Override the host", rule="C09-R5")
+  "                self._tunnel()\n\n                # The proxy accepted the tunnel: from here on failures are the origin's.\n                self._has_connected_to_proxy = True\n                # Override the host",
+  "                # The proxy accepted the tunnel: from here on failures are the origin's.\n                self._has_connected_to_proxy = True\n                # Override the host", rule="C09-R5")
 M("C09", "connect-host-brackets-stripped", "connectionpool.py",
   "        self._tunnel_host = normalize_host(host, scheme=self.scheme).lower()", "        self._tunnel_host = _normalize_host(host, scheme=self.scheme).lower()", rule="C09-R7")
 M("C09", "proxy-tls-uses-origin-assertions", "connection.py",
@@ -473,8 +473,8 @@ M("C10", "h2-value-check-after-append", "http2/connection.py",
 M("C10", "h2-value-allows-nul", "http2/connection.py",
   "rb\"[\\0\\x00\\x0a\\x0d\\r\\n]|^[ \\r\\n\\t]|[ \\r\\n\\t]$\"", "rb\"[\\x0a\\x0d\\r\\n]|^[ \\r\\n\\t]|[ \\r\\n\\t]$\"", rule="C10-R6")
 M("C10", "raw-sendall-of-body", "connection.py",
-  "                if chunked:\n                    self.send(b\"%x\\r\\n%b\\r\\n\" % (len(chunk), chunk))\n                else:\n                    self.send(chunk)",
-  "                if chunked:\n                    self.send(b\"%x\\r\\n%b\\r\\n\" % (len(chunk), chunk))\n                else:\n                    self.sock.sendall(chunk)", rule="C10-R4")
+  "                    self.send(b\"%x\\r\\n%b\\r\\n\" % (len(chunk), chunk))\n                else:\n                    self.send(chunk)",
+  "                    self.send(b\"%x\\r\\n%b\\r\\n\" % (len(chunk), chunk))\n                else:\n                    self.sock.sendall(chunk)", rule="C10-R4")
 M("C10", "skip-header-accepted-for-any-header", "connection.py",
   "        elif to_str(header.lower()) not in SKIPPABLE_HEADERS:", "        elif to_str(header.lower()) not in SKIPPABLE_HEADERS and header.lower().startswith(\"x-\"):", rule="C10-R5")
 
@@ -493,8 +493,8 @@ M("C11", "terminator-skipped-for-empty-iterable", "connection.py",
 M("C11", "empty-chunks-not-skipped", "connection.py",
   "                if not chunk:\n                    continue\n", "", rule="C11-R2")
 M("C11", "chunk-size-of-str-not-bytes", "connection.py",
-  "                if isinstance(chunk, str):\n                    chunk = chunk.encode(\"utf-8\")\n                if chunked:\n                    self.send(b\"%x\\r\\n%b\\r\\n\" % (len(chunk), chunk))",
-  "                if chunked:\n                    size = len(chunk)\n                    if isinstance(chunk, str):\n                        chunk = chunk.encode(\"utf-8\")\n                    self.send(b\"%x\\r\\n%b\\r\\n\" % (size, chunk))", rule="C11-R2")
+  "                if isinstance(chunk, str):\n                    chunk = chunk.encode(\"utf-8\")\n                if chunked:\n                    if not isinstance(chunk, bytes):",
+  "                size = len(chunk)\n                if isinstance(chunk, str):\n                    chunk = chunk.encode(\"utf-8\")\n                if chunked:\n                    self.send(b\"%x\\r\\n%b\\r\\n\" % (size, chunk))\n                    continue\n                if chunked:\n                    if not isinstance(chunk, bytes):", rule="C11-R2")
 M("C11", "retry-resend-without-body-pos", "connectionpool.py",
   "                release_conn=release_conn,\n                chunked=chunked,\n                body_pos=body_pos,\n                preload_content=preload_content,\n                decode_content=decode_content,\n                **response_kw,\n            )\n\n        # Handle redirect?",
   "                release_conn=release_conn,\n                chunked=chunked,\n                preload_content=preload_content,\n                decode_content=decode_content,\n                **response_kw,\n            )\n\n        # Handle redirect?", rule="C11-R3")
@@ -530,7 +530,7 @@ M("C12", "gzip-no-new-obj-for-next-member", "response.py",
 M("C12", "multidecoder-forward-order", "response.py",
   "        for d in reversed(self._decoders):", "        for d in self._decoders:", rule="C12-R4")
 M("C12", "multidecoder-flushes-first-applied", "response.py",
-  "        return self._decoders[0].flush()", "        return self._decoders[-1].flush()", rule="C12-R4")
+  "        for d in reversed(self._decoders):\n            if data:\n                data = d.decompress(data)\n            data += d.flush()", "        for d in self._decoders:\n            if data:\n                data = d.decompress(data)\n            data += d.flush()", rule="C12-R4")
 M("C12", "zstd-registered-without-error-class", "response.py",
   "    if HAS_ZSTD:\n        DECODER_ERROR_CLASSES += (zstd.ZstdError,)\n", "", rule="C12-R5")
 M("C12", "no-flush-on-read-all", "response.py",
@@ -633,7 +633,7 @@ M("C19", "clone-copies-start-stamp", "util/timeout.py",
 M("C19", "bool-accepted-as-timeout", "util/timeout.py",
   "        if isinstance(value, bool):\n            raise ValueError(\n                \"Timeout cannot be a boolean value. It must \"\n                \"be an int, float or None.\"\n            )\n", "", rule="C19-R2")
 M("C19", "zero-timeout-accepted", "util/timeout.py",
-  "            if value <= 0:", "            if value < 0:", rule="C19-R2")
+  "            if value <= 0 or value != value:", "            if value < 0 or value != value:", rule="C19-R2")
 M("C19", "total-stored-unvalidated", "util/timeout.py",
   "        self.total = self._validate_timeout(total, \"total\")", "        self.total = total", rule="C19-R2")
 M("C19", "connect-timeout-ignores-total", "util/timeout.py",
